@@ -593,6 +593,7 @@ def run(repo, rep):
     common.zone_table_rule(repo, rep)
     common.longitude_range_rule(repo, rep)
     common.standalone_longitude_rule(repo, rep)
+    common.validated_copy_rule(repo, rep, [('geodepy.convert', 'grid2geo')])
     if ctx is not None:
         cm_sibling_rule(repo, rep, ctx)
     tr = ThreadRule(repo, _Filter(rep, lambda key: 'psfandgridconv' not in key))
